@@ -77,3 +77,13 @@ claim('C14', 'default-argument lint, finite-domain dispatch evaluation over Sign
       'constructor refusals (self-signed anchor, roots of trust, user functions). Does not decide existence of a chain, '
       'cryptographic validity or retrieval behaviour.',
       'Cryptodome verifiers; Checker.check/match semantics (C11/C12)')
+
+claim('C15', 'SQL effect extraction from string constants (table, WHERE columns, bound parameters), trigger parsing, resolved-call lint, def-use of the memo key, ordering of delete/reset effects, commit-compensation pattern',
+      'Decides: per view class iteration/length/lookup/default queries read the same table and are scoped to their owner with the '
+      'scope bound to self.row_id; a missing entry raises KeyError; the nine default-maintaining triggers exist with the right '
+      'timing, WHEN clause and owner scope, and set_default_* go through UPDATE + commit; every self.pib.<m>() delegation resolves '
+      'to an existing keychain method; the signer memo key depends on every argument of tpm.get_signer; key locator defaults to the '
+      'certificate; deletes remove certificates, key row and private key (cascade is inert) and reset the signer cache afterwards; '
+      'no commit between dependent inserts without a compensating delete; TpmFile names files from one encoding. '
+      'Does not decide histories, crash points or reopen.',
+      'sqlite3 trigger/unique-index semantics; no PRAGMA foreign_keys in the package')
